@@ -718,8 +718,10 @@ sexp sexp_bignum_expt (sexp ctx, sexp a, sexp b) {
   for (; abs_e; abs_e>>=1, acc=sexp_bignum_mul(ctx, NULL, acc, acc))
     if (abs_e & 1)
       res = sexp_bignum_mul(ctx, NULL, res, acc);
-  if (e < 0)
-    res = sexp_div(ctx, sexp_fixnum_to_bignum(ctx, SEXP_ONE), res);
+  if (e < 0) {
+    acc = sexp_fixnum_to_bignum(ctx, SEXP_ONE);
+    res = sexp_div(ctx, acc, res);
+  }
   sexp_gc_release2(ctx);
   return sexp_bignum_normalize(res);
 }
